@@ -229,9 +229,12 @@ def run_rebuild(shard, mon, S, table):
             from vf.props.c12 import build_iban_around  # noqa: PLC0415
             from vf.ref import lookup  # noqa: PLC0415
 
-            keys = [k for k in sorted(lookup.by_key()) if k[0] == cc]
+            byk = lookup.by_key()
+            keys = [k for k in sorted(byk) if k[0] == cc]
             if len(keys) > (60 if shard["tier"] == "quick" else 10**9):
-                keys = rng.sample(keys, 60)
+                # records that say something about check digits are always taken, the rest is sampled
+                special = [k for k in keys if any("checksum" in str(f_) or "algo" in str(f_) for e_ in byk[k] for f_ in e_)]
+                keys = special[:200] + rng.sample(keys, 60)
             for _, code in keys:
                 t = build_iban_around(cc, code, table, rng)
                 fb = N.force_valid(cc, t[4:]) if t else None
